@@ -101,6 +101,10 @@ def jobs(pid, tier):
         J.append(Job('k7_swap', dict(N=4, L=2, x=0, K=2, handle=True), need_outcomes=['swapped']))
         J.append(Job('k8_gc', dict(N=4, L=2, roots=0, nondet=True), need_outcomes=['collected']))
         J.append(Job('k8_gc', dict(N=4, L=3, roots=0, nondet=False, shutdown=True), need_outcomes=['shutdown']))
+        if not q:
+            J.append(Job('autoref_life', dict(N=5, L=3), need_outcomes=['done:var', 'done:ite']))
+            J.append(Job('k7_swap', dict(N=4, L=3, x=1, K=2, handle=True), need_outcomes=['swapped']))
+            J.append(Job('k8_gc', dict(N=5, L=3, roots=0, nondet=True), need_outcomes=['collected']))
     # the property's own decorated operations under dynamic reordering (the reorder contract with
     # a real change of order, firing at every node creation): the C09 harness restricted to them
     DYN = {'C01': ['ite', 'apply_and'], 'C02': ['var', 'cube', 'apply_and'],
@@ -192,12 +196,18 @@ def jobs(pid, tier):
                      need_outcomes=['loaded']))
     if pid == 'C17':
         J.append(Job('reject', dict(N=3, L=2, fires=1), need_outcomes=['rejected:apply_unknown_op', 'rejected:expr_syntax', 'rejected:var_undeclared']))
+        if not q:
+            J.append(Job('reject', dict(N=4, L=2, fires=2), need_outcomes=['rejected:apply_unknown_op', 'rejected:expr_syntax']))
+            J.append(Job('reject', dict(N=4, L=3, fires=1), need_outcomes=['rejected:apply_unknown_op', 'rejected:expr_syntax']))
     if pid == 'C18':
         J.append(Job('views', dict(N=4, L=2), need_outcomes=['viewed:' + k for k in
                      ('expand_function', 'expand_succ', 'descendants', 'to_nx', 'to_dot')]))
         # the views read vars / _level_to_var / _succ: the operations that rewrite them keep them in step
         J.append(Job('k9_undeclare', dict(N=4, L=3), need_outcomes=['removed', 'refused']))
         J.append(Job('k7_swap', dict(N=4, L=2, x=0, K=2, handle=True), need_outcomes=['swapped']))
+        if not q:
+            J.append(Job('views', dict(N=4, L=3), need_outcomes=['viewed:expand_function', 'viewed:to_dot']))
+            J.append(Job('views', dict(N=5, L=2), need_outcomes=['viewed:expand_function', 'viewed:to_dot']))
     if pid == 'C19':
         for w in ('cudd', 'cudd_zdd', 'sylvan', 'buddy'):
             J.append(Job('pyx', dict(which=w), need_outcomes=['compared'], procs=4))
